@@ -40,3 +40,6 @@ func ECDecodeRange(rule iec.Rule, fromIdx, toIdx int, parts [][]byte) error {
 func ECDecodeIndexes(rule iec.Rule, parts [][]byte, idxs []int) error {
 	return iec.DecodeIndexes(rule, parts, idxs)
 }
+
+// ECErrParts re-exports [iec.ErrParts].
+type ECErrParts = iec.ErrParts
